@@ -1870,6 +1870,20 @@ class Sim:
                 if tr.features[key]["feature_type"] == "edge":
                     call("get_edge_attr", lambda key=key: tr.get_edge_attr(e, key))
                     call("get_edges_attr", lambda key=key: tr.get_edges_attr(es, key))
+        # deprecated but still public read accessors
+        import warnings as _w
+
+        with _w.catch_warnings():
+            _w.simplefilter("ignore", DeprecationWarning)
+            call("time_attr", lambda: tr.time_attr)
+            call("pos_attr", lambda: tr.pos_attr)
+            call("node_id_to_track_id", lambda: dict(tr.node_id_to_track_id))
+            if ns and "area" in tr.features:
+                call("get_area", lambda: tr.get_area(ns[k % len(ns)]))
+                call("get_areas", lambda: tr.get_areas(ns))
+            if es and "iou" in tr.features:
+                call("get_iou", lambda: tr.get_iou(es[k % len(es)]))
+                call("get_ious", lambda: tr.get_ious(es))
         call("get_next_track_id", lambda: tr.get_next_track_id())
         call("get_next_lineage_id", lambda: tr.get_next_lineage_id())
         call("max_track_id", lambda: tr.max_track_id)
